@@ -91,10 +91,12 @@ async def add_key(backend, key, password, new_password, shared, settings=None, c
 class Clock:
     """Settable utcnow() for replicat.repository (snapshot timestamps)."""
 
-    def __init__(self, start=None, step=_dt.timedelta(seconds=1)):
+    def __init__(self, start=None, step=_dt.timedelta(seconds=1), seq=None):
         self.now = start or _dt.datetime(2024, 1, 1, 0, 0, 0)
         self.step = step
         self.reads = 0
+        self.seq = list(seq) if seq else None     # explicit values served first (same second, usec 0, non-monotone)
+        self.served = []
 
     def install(self):
         clock = self
@@ -104,8 +106,12 @@ class Clock:
             @classmethod
             def utcnow(cls):
                 clock.reads += 1
-                v = clock.now
-                clock.now = clock.now + clock.step
+                if clock.seq:
+                    v = clock.seq.pop(0)
+                else:
+                    v = clock.now
+                    clock.now = clock.now + clock.step
+                clock.served.append(v)
                 return v
 
         self._orig = repository_mod.datetime
